@@ -10,6 +10,7 @@ import (
 
 func main() {
 	r := vlib.Start("C04", "exploration")
+	r.ScaleQuick(3) // quick tier: 3x the case counts written at the sections (still well under a minute)
 	r.Rule("operand lists of 1..12 solids built by the harness (closed-form balls, boxes, flat boxes, checkerboards, shells, library primitives; duplicates of the very same solid; nesting up to two levels of join/intersect/subtract/Optimize/SolidMux), on dyadic coordinates (touching, coincident and nested operands, exact boundaries) and on random reals; query points on every bound of every solid of the scene (and one ulp either side), on the half-step lattice, uniform and far away; every accelerated or nested form is compared with the boolean formula over the operands' own Contains at the same point, under all n! operand orders for n<=4 and >=8 orders otherwise; smooth joins: the query point is chosen first and balls/boxes are placed at prescribed exact signed distances (some within, some beyond the radius, ties included) and evaluated under all 3!/4! arrival orders, plus random scenes; RectSet: Add/Remove/AddRectSet/RemoveRectSet histories against a cell-array model. A case is non-trivial if it has >=3 operands and points inside, outside and inside >=2 operands (boolean), a point contained through a translated operand (stack), a point within the radius of >=2 surfaces (smooth), or >=4 operations with a removal and a non-empty result (RectSet); distinct by hash of the operand/operation descriptions")
 	r.Assume("operands are only trusted pointwise: the reference is a formula over each operand's own Contains/SDF at the same (for stacks: the translated) point; a point where an operand answers true outside its own bounding box breaks the Solid precondition and is undecided")
 	r.Assume("stacked solids: offsets are recomputed from the operands' reported bounds; exact workload on multiples of 1/8, float workload with a 1e-9 margin to every decision boundary of the translated harness leaves")
